@@ -276,6 +276,12 @@ class _Builder:
                 have = self.place_ty(op.get("c") or op.get("m"))
                 if have is not None and not have.startswith("&"):
                     rv = {"k": "ref", "mut": want.startswith("&mut"), "place": op.get("c") or op.get("m")}
+            elif untuple and i == 0 and not want.startswith("&") and ("c" in op or "m" in op):
+                # a by-value (FnOnce) closure body reached through a reference to the closure
+                pl_ = op.get("c") or op.get("m")
+                have = self.place_ty(pl_)
+                if have is not None and have.startswith("&"):
+                    rv = {"k": "use", "a": {"c": {"l": pl_["l"], "p": pl_["p"] + ["deref"]}}}
             self.blocks[bi]["stmts"].append({"k": "assign", "lhs": {"l": pl, "p": []}, "rv": rv,
                                              "lty": want, "line": line, "exp": False, "inl": "arg"})
         self.blocks[bi]["term"] = {"k": "goto", "t": bm(0), "line": line, "inl": callee.id}
